@@ -109,6 +109,13 @@ HAND_SEEDS = {
 #:parameters Sri
 1e9 .1 .1 .1 .1 .1 .1 .1 .1
 """,
+    "h_npd_huge_ports_three_formats.npd": b"""#NPD
+#:version 1.0
+#:ports 2147483647
+#:frequencies 2
+#:parameters Sri,Zma,IL
+1e9 1 2 3
+""",
     "h_npd_huge_ports_z0.npd": b"""#NPD
 #:version 1.0
 #:ports 2147483647
